@@ -29,11 +29,12 @@ TIE_NOTE = ("The hand-written model is tied to sanitize.go by differential runs 
 
 CLAIMED.update({
  "C01": _c("proof", "Theorem C01_items_partial (all token lists, all policies without AllowUnsafe): every tag the loop emits names an allowed element, comments only when allowed, "
-           "no doctype, everything else escaped input text or the AddSpace blank. Partial: the re-tokenisation of the rendered bytes is not yet a theorem; it is checked by the "
+           "no doctype, everything else escaped input text or the AddSpace blank. Theorem C01_output_tokens (all input byte strings, every policy without comments and raw-text elements): the tokens the tokenizer model reads "
+           "from the sanitized bytes are text or tags of allowed elements, never comment or doctype (round-trip theorem retokenize_sanitize). Partial: byte level for comment/raw-text policies and the tree-builder clause are checked by the "
            "implementation-side oracle (html.Tokenizer and html.ParseFragment in ten containers) on every generated case.", "DESIGN.md section 5 C01",
            TIE_NOTE + "Tree-builder clause argued, not proved.", "Coq proof over an executable model of the token loop + differential correspondence (bounded-exhaustive token sequences) + re-parse oracle"),
  "C05": _c("proof", "Theorems C05_tags / C05_literal_names / C05_body: for every policy value without AllowUnsafe (tables naming script/style, patterns matching them, modified skip sets included) "
-           "and every token list no script/style tag is emitted, nothing is written unescaped, and the raw-text body token after a script/style start or self-closing tag yields nothing.",
+           "and every token list no script/style tag is emitted, nothing is written unescaped, and the raw-text body token after a script/style start or self-closing tag yields nothing; C05_output_tokens states the same of the tokens read back from the output bytes (policies without comments / other raw-text elements).",
            "DESIGN.md section 5 C05", TIE_NOTE, "Coq proof over the loop model + bounded-exhaustive correspondence + marker oracle"),
  "C08": _c("proof", "Theorem C08_skipping_emits_nothing_partial: in the content-skipping state the loop emits nothing but the AddSpace blank (all token lists). Partial: the characterisation of "
            "that state on well-nested documents is carried by the bounded-exhaustive loop correspondence and the marker oracle.", "DESIGN.md section 5 C08", TIE_NOTE,
@@ -49,7 +50,7 @@ CLAIMED.update({
  "C12": _c("proof", "Theorems C12_crossorigin / C12_sandbox / C12_sandbox_names for every element, attribute list, policy and matcher interpretation; the element table and the SandboxValue->token map are regenerated from the source and re-checked by computation.",
            "DESIGN.md section 5 C12", TIE_NOTE, "Coq proof by list induction over the model of sanitizeAttrs + generated-table instance facts + differential correspondence"),
  "C02": _c("proof", "Theorems C02_filter_sound_partial / C02_rule_accepts / C02_not_bare: every attribute surviving the filtering loop is justified by a rule of the element (explicit entry else merged pattern entries) or a global rule accepting the decoded value, "
-           "a well-formed data-* attribute, or the style filter; an element is never emitted bare unless allowed without attributes (all inputs, all policies). Partial: one provenance theorem through the rewriting passes and the re-tokenisation are not yet proved; covered by the attrs correspondence and the oracle.",
+           "a well-formed data-* attribute, or the style filter; an element is never emitted bare unless allowed without attributes (all inputs, all policies). C02_final_list: every attribute of the list sanitizeAttrs returns is forced (rel/target/crossorigin/sandbox), justified and unchanged, or justified and replaced by validURL's result. C02_output_tokens: the same for every attribute a tokenizer reads from the output bytes (policies without comments / raw-text elements). Partial: byte level for comment/raw-text policies; covered by the attrs correspondence and the oracle.",
            "DESIGN.md section 5 C02", TIE_NOTE, "Coq proof over the model of sanitizeAttrs and the token loop + differential correspondence on sanitizeAttrs"),
  "C03": _c("proof", "Theorems C03_gate_partial / C03_url_pass / C03_positions: a value accepted by validURL is the re-serialisation of a successful parse whose scheme is allowlisted (custom checks, scheme patterns) or which is scheme-less with relative URLs allowed; white space survives only in data: values; at URL positions only that value is kept; "
            "the fifteen positions are covered by linkable() and the URL switch (regenerated tables). Partial: the link between Go's parser and browser scheme extraction is an oracle hypothesis (monitored) and an output oracle.",
@@ -57,10 +58,10 @@ CLAIMED.update({
  "C10": _c("proof", "Theorems C10_filter / C10_no_rule_no_keep / C10_empty_dropped: the exact characterisation of the rebuilt style value (declarations kept in order iff a rule of the element or a global rule accepts the lower-cased, escape-stripped value for the lower-cased, prefix-stripped property). Partial: browser-equivalence of removeUnicode and of douceur's tokenisation is not claimed.",
            "DESIGN.md section 5 C10", TIE_NOTE, "Coq characterisation of the model of sanitizeStyles with douceur as oracle + differential correspondence on sanitizeStyles / removeUnicode"),
  "C06": _c("proof", "Theorems C06_text_emitted_once_partial / C06_read_back / C06_inert / C06_never_raw: a text token outside skipped and script/style regions is emitted exactly once, escaped; unescape(escape d) = d for every byte string; the escaped bytes contain no markup-significant character; nothing is written raw without AllowUnsafe. "
-           "Partial: the statement over the whole re-tokenised output needs the round-trip theorem; the text-equality oracle checks it on every case.", "DESIGN.md section 5 C06", TIE_NOTE,
+           "C06_output_text / C06_output_text_equal (whole documents, policies without comments and raw-text elements, inputs without script/style/skip-content tags): the text read from the output bytes equals the text read from the input, plus exactly one blank per removed tag under AddSpaceWhenStrippingTag. Partial: policies that keep comments; the text-equality oracle checks it on every case.", "DESIGN.md section 5 C06", TIE_NOTE,
            "Coq proof (induction over bytes for unescape-escape; loop case analysis) + token-stream and chunk correspondence + text equality oracle"),
  "C07": _c("proof", "Theorems C07_any_rule_suffices_partial / C07_additive / C07_accepted_attr_unchanged: a value accepted by any one of the rules covering an attribute is kept, adding a rule never rejects what was accepted, an accepted attribute passes the filter unchanged. "
-           "Partial: byte-for-byte identity of whole conforming documents needs the round-trip theorem (pass-through oracle instead); explicit entries shadow pattern rules (finding F11).", "DESIGN.md section 5 C07", TIE_NOTE,
+           "C07_pass_through: a document that is the canonical serialisation of items the policy leaves alone is returned byte for byte (every policy, every such document; instance C04_sample_doc_unchanged). Partial: documents with comments or raw-text elements (pass-through oracle); explicit entries shadow pattern rules (finding F11).", "DESIGN.md section 5 C07", TIE_NOTE,
            "Coq proof over association-list rule tables + differential correspondence + pass-through oracle on generated conforming documents"),
  "C09": _c("proof", "Theorems C09_stack_invariant / C09_dropped_pair_partial: the closing-tag stack is consulted safely on every token list; a non-void element dropped for lack of attributes is popped by exactly its own end tag, restoring stack, flag and skipping state. "
            "Partial: the induction over whole well-nested documents is carried by the bounded-exhaustive loop correspondence and the balance oracle.", "DESIGN.md section 5 C09", TIE_NOTE,
@@ -74,14 +75,14 @@ CLAIMED.update({
  "C17": _c("proof", "Theorems C17_rules_accumulate_partial / C17_rule_lists / C17_switch_last_setting / C17_skip_set_last_setting over Builder.apply. "
            "Partial: order/case independence of whole histories is carried by the policy-dump correspondence (every table after every call on interleaved policies) and the behaviour oracle.", "DESIGN.md section 5 C17", TIE_NOTE,
            "Coq proof over the builder model + policy-state correspondence after every builder call + behavioural equivalence oracle"),
- "C20": _c("proof", "Theorems C20_escaping_not_applied_twice_partial / C20_rel_tokens_not_repeated: the three mechanisms the property names. Partial: composition over whole documents is checked by the idempotence oracle on every case of the policy class.",
+ "C20": _c("proof", "Theorems C20_escaping_not_applied_twice_partial / C20_rel_tokens_not_repeated: the three mechanisms the property names. C20_idempotent_if_attrs_stable: Sanitize(Sanitize(x)) = Sanitize(x) for every x and every policy without comments/raw-text elements whose attribute filter is idempotent on its own output; C20_strict (StrictPolicy) and C20_idempotent_plain_elements (policies whose elements carry no rewritten attribute) discharge that premise. Partial: the premise for URL / forced-attribute elements (UGCPolicy) is checked by the idempotence oracle on every case of the policy class.",
            "DESIGN.md section 5 C20", TIE_NOTE, "Coq proof of the component idempotence lemmas + differential correspondence + idempotence oracle"),
  "C18": _c("proof", "Theorems C18_regexps_inert / C18_regexps_whole_value / C18_strippers_anchored / C18_keywords_inert / C18_unknown_property: every regexp of css/handlers.go used as a value acceptor matches the whole value and accepts no hostile string (all lengths, by reflection on the regenerated ASTs); "
            "function-name strippers are anchored; keyword lists contain none of the characters every hostile value needs; the lookup falls back to reject-all. Partial: the composition of these blocks by the handlers' control flow is covered by the bounded-exhaustive search the property text describes (all 213 entries, hostile fragments at every position).",
            "DESIGN.md section 5 C18", "The translator classifies regexps by use (MatchString vs ReplaceAll/FindString) and recognises the GetDefaultHandler/BaseHandler shapes; the hostile language in Spec/CssInert.v is my reading of the property text. ",
            "Coq proof by reflection (verified regexp emptiness procedure) on translator-regenerated CSS regexps and keyword lists + bounded-exhaustive hostile-fragment search over all default handlers"),
- "C04": _c("proof", "Theorems C04_strict_text_only / C04_ugc_tags / C04_ugc_tables over the model's build of the builder scripts regenerated from policies.go and helpers.go: StrictPolicy emits only escaped text; every tag UGCPolicy emits is in the documented vocabulary and not a forbidden element; "
-           "the tables (attribute names per element, global attributes, schemes exactly mailto/http/https, nofollow, no styles/data attributes/comments/rewriter) equal the documented ones, for every token list. Partial: the DOM clause and whole-document pass-through are exercised by the oracle (ParseFragment in ten containers).",
+ "C04": _c("proof", "Theorems C04_strict_text_only / C04_ugc_tags / C04_ugc_tables / C04_strict_no_markup / C04_strict_idempotent / C04_ugc_output_tokens / C04_ugc_pass_through over the model's build of the builder scripts regenerated from policies.go and helpers.go: StrictPolicy emits only escaped text; every tag UGCPolicy emits is in the documented vocabulary and not a forbidden element; "
+           "the tables (attribute names per element, global attributes, schemes exactly mailto/http/https, nofollow, no styles/data attributes/comments/rewriter) equal the documented ones, for every token list. On the bytes of the output, for every input: StrictPolicy's output has no angle bracket, reads back as text only and is a fixpoint; every tag read back from UGCPolicy's output is documented and not forbidden, every attribute forced or documented and no event-handler/style attribute, URL attribute values are u.String() of a parse with empty, mailto, http or https scheme; canonical documents in the vocabulary pass through byte for byte. Partial: the DOM clause is exercised by the oracle (ParseFragment in ten containers).",
            "DESIGN.md section 4 C04", TIE_NOTE + "The UGC vocabulary in Spec/UGCSpec.v is my reading of policies.go's comments. ",
            "Coq proof over translator-regenerated builder scripts (instance facts by computation) + policy-table correspondence of the shipped constructors + re-parse oracle"),
 })
